@@ -158,6 +158,23 @@ def prov_sym(ctx):
     return obs
 
 
+def _is_not_ascii(c, neg=False):
+    """`self.encodation` is not Ascii: ne(enc, Ascii) | !eq(enc, Ascii) | !enc.is_ascii() | !matches!(enc, Ascii)"""
+    if c[0] == "un" and c[1] == "Not":
+        return _is_not_ascii(c[2], not neg)
+    if c[0] == "call" and (c[1].endswith("::ne") or c[1].endswith("::eq")) and len(c[2]) == 2:
+        a, b = c[2]
+        pair = (_field_of_self(a, "encodation") and b[0] == "adt" and b[2] == "Ascii") or (_field_of_self(b, "encodation") and a[0] == "adt" and a[2] == "Ascii")
+        return pair and (c[1].endswith("::ne") != neg)
+    if c[0] == "call" and c[1].endswith("EncodationType::is_ascii") and _field_of_self(c[2][0], "encodation"):
+        return neg
+    if c[0] == "match" and _field_of_self(c[1], "encodation") and len(c[2]) == 2:
+        arms = dict((d, b) for d, b in c[2])
+        if arms.get("Ascii") == ("lit", True) and arms.get("Wild") == ("lit", False):
+            return neg
+    return False
+
+
 def pad_path(ctx):
     r = "PAD-PATH"
     f = ctx.facts()
@@ -179,8 +196,7 @@ def pad_path(ctx):
     all_unl = [x for s in T.stmt_walk(sts) for e in T.stmt_exprs(s) for x in T.sx_walk(e) if x[0] == "call" and x[1].endswith("::push") and x[2][1][0] == "const" and x[2][1][1] == "encodation::UNLATCH"]
     ok = len(unl) == 1 and len(all_unl) == 1
     if ok:
-        c = unl[0][1]
-        ok = c[0] == "call" and c[1].endswith("::ne") and _field_of_self(c[2][0], "encodation") and c[2][1][0] == "adt" and c[2][1][2] == "Ascii"
+        ok = _is_not_ascii(unl[0][1])
         ok = ok and any(st[0] == "assignop" and st[1] == "SubAssign" and is_var(st[2], "size_left") and st[3] == ("lit", 1) for st in unl[0][2])
     obs.append(Ob(r, "unlatch", ok, "the unlatch 254 is pushed exactly when the encoder is not in ASCII mode, and counted", site=site))
     # first pad is the constant PAD under size_left > 0
